@@ -11,8 +11,10 @@ namespace Teakra {
 class DataChannel {
 public:
     void Reset() {
+        std::lock_guard lock(mutex);
         ready = false;
         data = 0;
+        disable_interrupt = 0;
     }
 
     void Send(u16 data) {
